@@ -41,7 +41,10 @@ CONSTANTS Clients,          \* e.g. {1, 2}
           Export
 
 \* op kinds:
-\*  [k |-> "tip",    key |-> b]            commit on branch b (Load, Delete, Revert, Merge, ...)
+\*  [k |-> "tip",    key |-> b]            commit on branch b (Delete, Revert, Merge, Compact, ...)
+\*  [k |-> "load",   key |-> b]            Branch.Load: the branch is opened (ReadHead), the data objects are
+\*                                        uploaded ("up"), and only then the commit loop of "tip" starts --
+\*                                        other clients may commit while the upload is in progress
 \*  [k |-> "insert", key |-> n]            CreateBranch / CreatePool (value = fresh id)
 \*  [k |-> "rmkey",  key |-> n]            RemoveBranch
 \*  [k |-> "rename", id |-> i, new |-> n]  RenamePool
@@ -110,12 +113,13 @@ Constraint(t, e) ==
 \* ---- first ReadHead of an operation (lookup phase) --------------------------
 RH0(c) ==
   /\ pc[c] \in {"idle", "relook"} /\ HasOp(c) /\ CanRun(c)
+  /\ ~(pc[c] = "idle" /\ CurOp(c).k = "load")        \* a load starts with RHOpen
   /\ LET r == Reload(c)  t == r.tbl  op == CurOp(c)
          l0 == IF pc[c] = "idle" THEN [NoLoc EXCEPT !.t0 = Len(sched) + 1] ELSE loc[c] IN
      /\ at' = [at EXCEPT ![c] = r.at] /\ tbl' = [tbl EXCEPT ![c] = t]
      /\ Sched(c, "rh", head, "")
      /\ UNCHANGED <<entries, tabs, head, cobjs, crashes>>
-     /\ CASE op.k = "tip" ->
+     /\ CASE op.k \in {"tip", "load"} ->
                IF ~Has(t, op.key)
                THEN /\ Finish(c, "notfound", -1, -1) /\ loc' = [loc EXCEPT ![c] = l0] /\ UNCHANGED fresh
                ELSE /\ loc' = [loc EXCEPT ![c] = [l0 EXCEPT !.par = t[op.key], !.cid = fresh]]
@@ -141,6 +145,23 @@ RH0(c) ==
                      ELSE /\ loc' = [loc EXCEPT ![c] = [l0 EXCEPT !.pend = e, !.jr = 0, !.txn = e.txn]]
                           /\ pc' = [pc EXCEPT ![c] = "cas"] /\ UNCHANGED <<opi, resp>>
 
+\* ---- Branch.Load: open the branch, then upload the data objects -----------------
+RHOpen(c) ==
+  /\ pc[c] = "idle" /\ HasOp(c) /\ CurOp(c).k = "load" /\ CanRun(c)
+  /\ LET r == Reload(c)  t == r.tbl  l0 == [NoLoc EXCEPT !.t0 = Len(sched) + 1] IN
+     /\ at' = [at EXCEPT ![c] = r.at] /\ tbl' = [tbl EXCEPT ![c] = t]
+     /\ Sched(c, "rh", head, "")
+     /\ loc' = [loc EXCEPT ![c] = l0]
+     /\ UNCHANGED <<entries, tabs, head, cobjs, fresh, crashes>>
+     /\ IF ~Has(t, CurOp(c).key) THEN Finish(c, "notfound", -1, -1)
+        ELSE pc' = [pc EXCEPT ![c] = "up"] /\ UNCHANGED <<opi, resp>>
+
+Up(c) ==
+  /\ pc[c] = "up" /\ CanRun(c)
+  /\ Sched(c, "up", 0, "")
+  /\ pc' = [pc EXCEPT ![c] = "relook"]
+  /\ UNCHANGED <<entries, tabs, head, cobjs, opi, at, tbl, loc, fresh, resp, crashes>>
+
 \* ---- commits.Store.Put of the new commit object ------------------------------
 PutC(c) ==
   /\ pc[c] = "putc" /\ CanRun(c)
@@ -164,7 +185,7 @@ RH1(c) ==
      /\ Sched(c, "rh", head, "")
      /\ UNCHANGED <<entries, tabs, head, cobjs, fresh, crashes>>
      /\ IF chk = "ok" THEN pc' = [pc EXCEPT ![c] = "cas"] /\ UNCHANGED <<loc, opi, resp>>
-        ELSE IF CurOp(c).k = "tip" THEN ToRmc(c, chk = "constraint", chk)
+        ELSE IF CurOp(c).k \in {"tip", "load"} THEN ToRmc(c, chk = "constraint", chk)
         ELSE Finish(c, chk, -1, loc[c].txn) /\ UNCHANGED loc
 
 \* ---- Queue.CommitAt part 1: PutIfNotExists(at + 1) ------------------------------
@@ -176,7 +197,7 @@ CAS(c) ==
           /\ Sched(c, "cas", n, "exists")
           /\ UNCHANGED <<entries, tabs, head, cobjs, at, tbl, fresh, crashes>>
           /\ IF loc[c].jr + 1 >= MaxRetries
-             THEN IF CurOp(c).k = "tip" THEN ToRmc(c, FALSE, "unavailable")
+             THEN IF CurOp(c).k \in {"tip", "load"} THEN ToRmc(c, FALSE, "unavailable")
                   ELSE Finish(c, "unavailable", -1, loc[c].txn) /\ UNCHANGED loc
              ELSE /\ loc' = [loc EXCEPT ![c].jr = @ + 1]
                   /\ pc' = [pc EXCEPT ![c] = "rh1"] /\ UNCHANGED <<opi, resp>>
@@ -229,10 +250,10 @@ Init ==
   /\ loc = [c \in Clients |-> NoLoc]
   /\ fresh = 100 /\ resp = <<>> /\ last = 0 /\ budget = 0 /\ crashes = 0 /\ sched = <<>>
 
-Next == \E c \in Clients : RH0(c) \/ PutC(c) \/ RH1(c) \/ CAS(c) \/ WH(c) \/ RMC(c) \/ Fin(c) \/ Crash(c)
+Next == \E c \in Clients : RHOpen(c) \/ Up(c) \/ RH0(c) \/ PutC(c) \/ RH1(c) \/ CAS(c) \/ WH(c) \/ RMC(c) \/ Fin(c) \/ Crash(c)
 
 Spec == Init /\ [][Next]_vars
-FairSpec == Spec /\ \A c \in Clients : WF_vars(RH0(c) \/ PutC(c) \/ RH1(c) \/ CAS(c) \/ WH(c) \/ RMC(c) \/ Fin(c))
+FairSpec == Spec /\ \A c \in Clients : WF_vars(RHOpen(c) \/ Up(c) \/ RH0(c) \/ PutC(c) \/ RH1(c) \/ CAS(c) \/ WH(c) \/ RMC(c) \/ Fin(c))
 
 Done == \A c \in Clients : pc[c] = "dead" \/ (pc[c] = "idle" /\ ~HasOp(c))
 
@@ -266,15 +287,15 @@ AckedOnce == \A j \in 1..Len(resp) :
    IF resp[j].res = "ok" /\ resp[j].op.k \notin {"read", "scan"} THEN n = 1 ELSE (resp[j].txn = -1 \/ n = 0)
 \* a failed branch commit left no commit object behind; an acknowledged one is the child of the tip it replaced
 NoOrphanOnFail == \A j \in 1..Len(resp) :
-   (resp[j].op.k = "tip" /\ resp[j].res # "ok") => ~\E o \in cobjs : o.id = resp[j].txn
+   (resp[j].op.k \in {"tip", "load"} /\ resp[j].res # "ok") => ~\E o \in cobjs : o.id = resp[j].txn
 AckedCommitStored == \A j \in 1..Len(resp) :
-   (resp[j].op.k = "tip" /\ resp[j].res = "ok") => \E o \in cobjs : o.id = resp[j].val
+   (resp[j].op.k \in {"tip", "load"} /\ resp[j].res = "ok") => \E o \in cobjs : o.id = resp[j].val
 \* the tip's parent chain contains every acknowledged commit of that branch exactly once
 RECURSIVE Chain(_)
 Chain(id) == IF ~\E o \in cobjs : o.id = id THEN <<>>
              ELSE LET o == CHOOSE o \in cobjs : o.id = id IN <<id>> \o Chain(o.parent)
 SingleChain == \A k \in DOMAIN Table(Len(entries)) :
-   LET acked == {resp[j].val : j \in {j \in 1..Len(resp) : resp[j].op.k = "tip" /\ resp[j].res = "ok" /\ resp[j].op.key = k}}
+   LET acked == {resp[j].val : j \in {j \in 1..Len(resp) : resp[j].op.k \in {"tip", "load"} /\ resp[j].res = "ok" /\ resp[j].op.key = k}}
        ch == Chain(Table(Len(entries))[k]) IN
    (\A j \in 1..Len(resp) : resp[j].op.k = "rmkey" => resp[j].res # "ok") =>
        /\ acked \subseteq ToSet(ch)
@@ -284,7 +305,7 @@ SingleChain == \A k \in DOMAIN Table(Len(entries)) :
 \* has the acknowledged commit on its parent chain); a query sees exactly one commit.
 ReadYourAck == \A i, j \in 1..Len(resp) :
    (/\ resp[j].op.k = "scan" /\ resp[j].res = "ok"
-    /\ resp[i].op.k = "tip" /\ resp[i].res = "ok" /\ resp[i].op.key = resp[j].op.key
+    /\ resp[i].op.k \in {"tip", "load"} /\ resp[i].res = "ok" /\ resp[i].op.key = resp[j].op.key
     /\ resp[i].t1 < resp[j].t0)
    => resp[i].val \in ToSet(Chain(resp[j].val))
 
